@@ -317,8 +317,141 @@ fn capture_laws(g: &Glob<'_>, ast: &Seq, cm: &CaptureModel, spec_ok: bool, path:
     bad
 }
 
+/// The long-path family: a closed family of (expression, path, expected captures) whose paths are
+/// as long as the powers of two at which offsets stored in narrower integers wrap (2^8, 2^16,
+/// 2^17), one byte below and above, with a capture beginning and a capture ending beyond the
+/// boundary, and a multi-byte character straddling it.
+fn long_path_cases(tier: Tier) -> Vec<(String, String, Vec<Option<String>>)> {
+    let mut lens: Vec<usize> = vec![255, 256, 257, 65_535, 65_536, 65_537];
+    if tier == Tier::Thorough {
+        lens.extend([65_534, 65_538, 131_071, 131_072, 131_073, 1 << 20]);
+    }
+    let mut out = vec![];
+    for n in lens {
+        let a = |k: usize| "a".repeat(k);
+        // one capture ending beyond the boundary
+        out.push(("*".to_string(), a(n), vec![Some(a(n))]));
+        // a capture beginning beyond the boundary
+        out.push(("*b*".to_string(), format!("{}b{}", a(n - 1), "cc"), vec![Some(a(n - 1)), Some("cc".to_string())]));
+        out.push(("*b$".to_string(), format!("{}b{}", a(n), "c"), vec![Some(a(n)), Some("c".to_string())]));
+        // a tree capture and a component capture around the boundary
+        out.push(("**/*".to_string(), format!("{}/bb", a(n - 2)), vec![Some(format!("{}/", a(n - 2))), Some("bb".to_string())]));
+        out.push(("a*/**/c?".to_string(), format!("a{}/m/n/cd", "x".repeat(n - 4)), vec![Some("x".repeat(n - 4)), Some("m/n/".to_string()), Some("d".to_string())]));
+        // a repetition capture
+        out.push(("<a:1,>b[c]".to_string(), format!("{}bc", a(n)), vec![Some(a(n)), Some("c".to_string())]));
+        // a multi-byte character straddling the boundary
+        out.push(("*é*".to_string(), format!("{}éyy", "x".repeat(n - 1)), vec![Some("x".repeat(n - 1)), Some("yy".to_string())]));
+        out.push(("?*".to_string(), format!("金{}", a(n - 2)), vec![Some("金".to_string()), Some(a(n - 2))]));
+    }
+    out
+}
+
+/// Checks the long-path family; `what` names the calling property's clause in the message.
+fn check_long_paths(rep: &Report, tier: Tier) -> u64 {
+    use rayon::prelude::*;
+    let cases = long_path_cases(tier);
+    cases.par_iter().for_each(|(e, path, expected)| {
+        let Some(g) = crate::model::build_ok(e) else { return };
+        let problems = guard(|| long_path_problems(&g, path, expected)).unwrap_or_else(|p| vec![format!("panic: {}", p)]);
+        if !problems.is_empty() {
+            rep.alarm(Alarm {
+                class: None,
+                key: format!("long {} {}", e, path.len()),
+                msg: format!("`{}` on a path of {} bytes: {}", e, path.len(), problems.join("; ")),
+                case: json!({"kind": "long-captures", "expression": e, "path_bytes": path.len()}),
+            });
+        }
+    });
+    cases.len() as u64
+}
+
+fn long_path_problems(g: &Glob<'_>, path: &str, expected: &[Option<String>]) -> Vec<String> {
+    let short = |s: Option<&str>| s.map(|s| if s.len() > 24 { format!("{}..({} bytes)", &s[..s.char_indices().nth(12).map_or(s.len(), |c| c.0)], s.len()) } else { s.to_string() });
+    let mut bad = vec![];
+    let cand = CandidatePath::from(path);
+    if !g.is_match(path) {
+        bad.push("is_match is false".to_string());
+    }
+    let Some(m) = g.matched(&cand) else {
+        bad.push("matched() is None".to_string());
+        return bad;
+    };
+    if m.complete() != path || m.get(0) != Some(path) {
+        bad.push("capture 0 is not the whole path".to_string());
+    }
+    let n = expected.len();
+    let owned = m.to_owned();
+    let mut last_end = 0usize;
+    for i in 0..=n + 1 {
+        let b = m.get(i);
+        if owned.get(i) != b {
+            bad.push(format!("to_owned capture {} is {:?}, borrowed is {:?}", i, short(owned.get(i)), short(b)));
+        }
+        if i >= 1 && i <= n {
+            if b != expected[i - 1].as_deref() {
+                bad.push(format!("capture {} is {:?}, expected {:?}", i, short(b), short(expected[i - 1].as_deref())));
+            }
+            if let Some(t) = b {
+                match offset_in(path, t) {
+                    Some((start, end)) => {
+                        if start < last_end {
+                            bad.push(format!("capture {} starts at {} before the end {} of the previous one", i, start, last_end));
+                        }
+                        last_end = end;
+                    },
+                    None => bad.push(format!("capture {} is not a slice of the path", i)),
+                }
+            }
+        }
+        if i > n && b.is_some() {
+            bad.push(format!("capture {} exists although the glob has {} capturing sub-expressions", i, n));
+        }
+    }
+    let into = g.matched(&cand).map(|m| m.into_owned());
+    if let Some(o) = into {
+        for i in 0..=n + 1 {
+            if o.get(i) != m.get(i) {
+                bad.push(format!("into_owned capture {} is {:?}, borrowed is {:?}", i, short(o.get(i)), short(m.get(i))));
+            }
+        }
+    }
+    // the owned glob answers the same way
+    let og = g.clone().into_owned();
+    if let Some(om) = og.matched(&cand) {
+        for i in 0..=n + 1 {
+            if om.get(i) != m.get(i) {
+                bad.push(format!("capture {} of the owned glob is {:?}, of the borrowed glob {:?}", i, short(om.get(i)), short(m.get(i))));
+            }
+        }
+    }
+    else {
+        bad.push("the owned glob does not match".to_string());
+    }
+    bad
+}
+
+pub fn replay_long_captures(case: &serde_json::Value) -> bool {
+    let e = case["expression"].as_str().unwrap_or("");
+    let bytes = case["path_bytes"].as_u64().unwrap_or(0) as usize;
+    let mut bad = false;
+    for tier in [Tier::Quick, Tier::Thorough] {
+        for (expr, path, expected) in long_path_cases(tier) {
+            if expr == e && path.len() == bytes {
+                let Some(g) = crate::model::build_ok(&expr) else { continue };
+                let problems = guard(|| long_path_problems(&g, &path, &expected)).unwrap_or_else(|p| vec![format!("panic: {}", p)]);
+                println!("`{}` on a path of {} bytes: {:?}", expr, bytes, problems);
+                bad |= !problems.is_empty();
+                return bad;
+            }
+        }
+    }
+    bad
+}
+
 pub fn c04(tier: Tier) -> i32 {
     let rep = Report::new("C04", tier, "exploration");
+    let long_cases = check_long_paths(&rep, tier);
+    rep.add("long_path_cases", long_cases);
     let mut opts = SpaceOpts::standard(tier);
     opts.subst_pairs = 0;
     opts.subst_single = tier.pick(2, 3);
@@ -579,6 +712,8 @@ fn all_captures(m: &wax::MatchedText<'_>, n: usize) -> Vec<Option<String>> {
 
 pub fn c19(tier: Tier) -> i32 {
     let rep = Report::new("C19", tier, "exploration");
+    let long_cases = check_long_paths(&rep, tier);
+    rep.add("long_path_cases", long_cases);
     let mut opts = SpaceOpts::standard(tier);
     opts.subst_pairs = 0;
     opts.subst_single = tier.pick(2, 3);
